@@ -34,6 +34,12 @@ def okfirst(c):
         & ((c < 0x2000) | (c > 0x200a)) & (c != 0x2028) & (c != 0x2029) & (c != 0x202f) & (c != 0x205f)
 
 
+def okq(c, q):
+    # content of a string written in quote q when nothing is printed afterwards (C02): only its own quote and the backslash are excluded,
+    # so the *other* quote character may occur anywhere, also first and last
+    return (c >= 32) & (c < 0x3000) & (c != q) & (c != 92)
+
+
 def okname(c):
     # attribute / item names inside [ ] : the UNQUOTED_STRING alphabet restricted to ASCII lower-case, digits, underscore
     return ((c >= 97) & (c <= 122)) | ((c >= 48) & (c <= 57)) | (c == 95)
@@ -41,8 +47,9 @@ def okname(c):
 
 
 class Hole:
-    def __init__(self, marker, kind="str", L=2, quote='"', not_words=()):
+    def __init__(self, marker, kind="str", L=2, quote='"', not_words=(), other_quote=False):
         self.marker, self.kind, self.L, self.quote, self.not_words = marker, kind, L, quote, tuple(not_words)
+        self.other_quote = other_quote
 
     @property
     def var(self):
@@ -56,6 +63,8 @@ class Hole:
         for i, (n, _) in enumerate(self.params()):
             if self.kind == "name":
                 out.append(f"okname({n})")
+            elif self.other_quote:
+                out.append(f"okq({n}, {ord(self.quote)})" + (f" & ({n} != 35)" if i == 0 else ""))
             elif self.kind == "xstr" and i == 0:
                 out.append(f"okfirst({n})")
             elif i == 0:
